@@ -1,0 +1,17 @@
+//go:build verif
+// +build verif
+
+package main
+
+import (
+	"fmt"
+	"os"
+)
+
+// with CRNG_VERIF_EXPAND=<file> the binary prints the interpolated config text and exits (verification harness only)
+func init() {
+	if p := os.Getenv("CRNG_VERIF_EXPAND"); p != "" {
+		fmt.Print(readConfigFile(p))
+		os.Exit(0)
+	}
+}
